@@ -6,6 +6,7 @@ canonical form.  Coefficients are exact Fractions.
 from __future__ import annotations
 
 import ast
+import re
 from fractions import Fraction
 
 from .model import AnalysisError, dotted
@@ -197,6 +198,22 @@ KW_POSITIONS = {
 }
 
 
+_INT_ATOM = re.compile(r"(\.tell(#\d+)?\(\)$)|(^len\()|(^struct\.calcsize\()|(\.st_size$)")
+
+
+def _integer_valued(p: "Poly") -> bool:
+    """Integer coefficients over atoms that are integers by construction (file positions, lengths, sizes)."""
+    if not p.t:
+        return True
+    for mono, coeff in p.t.items():
+        if Fraction(coeff).denominator != 1:
+            return False
+        for sym, _ in mono:
+            if not _INT_ATOM.search(sym):
+                return False
+    return True
+
+
 class PolyEnv:
     """Converts expressions to polynomials.
 
@@ -275,6 +292,8 @@ class PolyEnv:
                     r = self.atom_hook("cast", d, inner)
                     if r is not None:
                         return r
+                if d in ("int", "np.int64") and _integer_valued(inner):
+                    return inner   # int() of an integer is the integer
                 return Poly.sym(f"{d}({inner.canon()})")
             return self.atom(e)
         return self.atom(e)
